@@ -12,6 +12,11 @@ impl Vector<f64> {
         let h: f64 = ( b - a ) / ((size as f64) - 1.0);
         for i in 0..size {
             vec[i] = a + h * (i as f64);
+            if !vec[i].is_finite() {
+                // b - a ( or h * i ) overflowed although every point between a and b is representable
+                let t = (i as f64) / ((size as f64) - 1.0);
+                vec[i] = a * ( 1.0 - t ) + b * t;
+            }
         }
         Vector{ vec }
     }
@@ -22,7 +27,12 @@ impl Vector<f64> {
     pub fn powspace( a: f64, b: f64, size: usize, p: f64 ) -> Self {
         let mut vec = vec![ 0.0; size ];
         for i in 0..size {
-            vec[i] = a + (b - a) * f64::powf( (i as f64) / ((size as f64) - 1.0), p );
+            let s = f64::powf( (i as f64) / ((size as f64) - 1.0), p );
+            vec[i] = a + (b - a) * s;
+            if !vec[i].is_finite() {
+                // b - a overflowed although every point between a and b is representable
+                vec[i] = a * ( 1.0 - s ) + b * s;
+            }
         }
         Vector{ vec }
     }
